@@ -168,6 +168,15 @@ fn check_case(c: &Case, out: &mut Out) -> Option<Box<QRCode>> {
     }
     if !data_ok {
         let k = (0..exp_data.len()).find(|&k| data_read[k] != exp_data[k]).unwrap();
+        if consistent && c.mode.is_none() {
+            // the automatically chosen mode must not alter a character: same mode, same count, other characters
+            if let Some(dec) = decode_bytes(&data_read, v) {
+                if dec.0 == em && dec.1.len() == c.input.len() && dec.1 != c.input {
+                    let i = (0..dec.1.len()).find(|&i| dec.1[i] != c.input[i]).unwrap();
+                    out.fail("C09", "chosen_mode_alters_character", c, format!("automatic mode {} encodes input byte {:#04x} at position {} as {:#04x}", em, c.input[i], i, dec.1[i]));
+                }
+            }
+        }
         if consistent {
             out.fail("C06", "data_codewords", c, format!("data codeword {} is {:#04x}, ISO stream has {:#04x} (blocks are RS-consistent)", k, data_read[k], exp_data[k]));
         } else {
@@ -189,6 +198,23 @@ fn check_case(c: &Case, out: &mut Out) -> Option<Box<QRCode>> {
 }
 
 fn l_of(l: usize) -> usize { l }
+
+/// parse one segment: (mode, bytes)
+fn decode_bytes(data: &[u8], v: usize) -> Option<(usize, Vec<u8>)> {
+    let bits: Vec<bool> = data.iter().flat_map(|&b| (0..8).rev().map(move |i| (b >> i) & 1 == 1)).collect();
+    let mut pos = 0usize;
+    let mut take = |n: usize| -> Option<usize> { if pos + n > bits.len() { return None; } let r = bits[pos..pos + n].iter().fold(0usize, |a, &b| (a << 1) | b as usize); pos += n; Some(r) };
+    let mode = match take(4)? { 1 => NUM, 2 => ALNUM, 4 => BYTE, _ => return None };
+    let cnt = take(cci_bits(v, mode))?;
+    let mut out: Vec<u8> = Vec::new();
+    const AL: &[u8] = b"0123456789ABCDEFGHIJKLMNOPQRSTUVWXYZ $%*+-./:";
+    match mode {
+        NUM => { let mut left = cnt; while left > 0 { let k = core::cmp::min(3, left); let val = take([0, 4, 7, 10][k])?; let s = format!("{:0width$}", val, width = k); if s.len() != k { return None; } out.extend(s.bytes()); left -= k; } }
+        ALNUM => { let mut left = cnt; while left > 0 { if left >= 2 { let x = take(11)?; if x >= 2025 { return None; } out.push(AL[x / 45]); out.push(AL[x % 45]); left -= 2; } else { let x = take(6)?; if x >= 45 { return None; } out.push(AL[x]); left -= 1; } } }
+        _ => { for _ in 0..cnt { out.push(take(8)? as u8); } }
+    }
+    Some((mode, out))
+}
 
 /// parse one segment out of the data codewords; None when it yields exactly `input`
 fn decode_mismatch(data: &[u8], v: usize, input: &[u8]) -> Option<String> {
@@ -287,7 +313,9 @@ fn check_history(cases: &[Case], out: &mut Out) {
         let mut b = QRBuilder::new(c.input.clone());
         b.mask(MS[(i + 3) % 8]); b.version(VS[39]); b.ecl(LS[(i + 1) % 4]); b.mode(MDS[2]);
         let mut all = c.clone();
-        all.ecl = Some(c.eff_level()); all.mode = Some(c.eff_mode());
+        // the final values are the ones the fresh build itself reports (C14 is about histories, not about which mode is right)
+        all.ecl = Some(f.ecl.map(|l| l as usize).unwrap_or(c.eff_level())); all.mode = Some(f.mode.map(|m| m as usize).unwrap_or(c.eff_mode()));
+        if !mode_accepts(all.mode.unwrap(), &c.input) { continue; }
         let fv = f.version.unwrap() as usize; let fm = f.mask.unwrap() as usize;
         b.mode(MDS[all.mode.unwrap()]); b.ecl(LS[all.ecl.unwrap()]); b.version(VS[fv]); b.mask(MS[fm]);
         match b.build() { Ok(q) if same(&q, f) => {}, _ => out.fail("C14", "last_setter_wins", c, format!("setters overridden with final values (ecl {:?} version0 {} mask {} mode {:?}) give a different symbol", all.ecl, fv, fm, all.mode)) }
